@@ -99,9 +99,14 @@ func (pc *procController) Enter(op *Op) Decision {
 		// SignalReceived error (SignalSeen) right before it cancels. Waiting for that, not for a fixed time, keeps
 		// "delivered before point k" true on a loaded machine. An application that does not catch the signal has
 		// been ended by it; one that handles it otherwise is given 2 s.
-		for i := 0; i < 20000 && atomic.LoadInt32(&signalsSeen) == seen; i++ {
-			runtime.Gosched()
-			time.Sleep(100 * time.Microsecond)
+		// (bounded by elapsed time, not by iterations: on a loaded machine one short sleep can take milliseconds.)
+		// csvq's handler takes ONE signal: after it has seen one, a further signal only fills the notifier's channel,
+		// nobody will report it, and there is nothing to wait for.
+		if seen == 0 {
+			for start := time.Now(); atomic.LoadInt32(&signalsSeen) == seen && time.Since(start) < 2*time.Second; {
+				runtime.Gosched()
+				time.Sleep(100 * time.Microsecond)
+			}
 		}
 		for i := 0; i < 100; i++ {
 			runtime.Gosched()
